@@ -26,7 +26,10 @@ from vf.runner import Collector
 
 PROPERTY = "C07"
 RULE = (
-    "Program generator of C01 over tokenizable inputs (NumPy leaves, module-level block functions). (a) the program "
+    "Program generator of C01 over tokenizable inputs (NumPy leaves, seeded da.random sources: RandomState choice / "
+    "random_sample, Generator random / integers; module-level block functions). The fresh interpreter unpickles every "
+    "stage (latest first, each dropped and collected) BEFORE it rebuilds the program, so no live twin expression can "
+    "stand in for the unpickled one. (a) the program "
     "is built twice in-process from fresh equal arrays: equal collection name and equal sorted key set of the optimised "
     "graph; (b) per shard, a batch of the programs is rebuilt in a FRESH interpreter started with a different "
     "PYTHONHASHSEED: same names and key sets; (c) cloudpickle round trips taken at four stages (fresh, after .chunks, "
@@ -246,7 +249,7 @@ def run_shard(spec, seed):
 
     @hypothesis.seed(seed)
     @settings(max_examples=spec["cases"], database=None, deadline=None, derandomize=False, phases=[Phase.generate], suppress_health_check=list(HealthCheck))
-    @given(P.program_strategy(n_outputs=(1, 1), max_stmts=5))
+    @given(P.program_strategy(n_outputs=(1, 1), max_stmts=5, leaf_kinds=("numpy",) * 5 + P.RANDOM_KINDS))
     def body(pg):
         prog, stats = pg
         if not prog["stmts"]:
@@ -267,6 +270,8 @@ def run_shard(spec, seed):
             return
         case = {"program": prog}
         labels = progrun.base_labels(prog) + labs + ["stage:" + s for s in pickles]
+        if any(l["kind"].startswith("rand:") for l in prog["leaves"]):
+            labels.append("seeded-random-source")
         nt = P.n_blocks_max(prog) > 1 and any(s["op"] in CUSTOM_TOKEN_OPS for s in prog["stmts"])
         if len(batch) < spec.get("fresh_batch", 12):
             batch.append((case, ref, pickles))
@@ -300,4 +305,4 @@ def plan(tier):
     return specs
 
 
-REQUIRED_CLASSES = {"quick": ["fresh-process", "untokenizable-source", "stage:after-compute", "stage:after-optimize", "fam:reduction", "fam:rechunk"], "thorough": ["fresh-process", "untokenizable-source", "stage:after-compute", "stage:after-optimize"]}
+REQUIRED_CLASSES = {"quick": ["fresh-process", "seeded-random-source","untokenizable-source", "stage:after-compute", "stage:after-optimize", "fam:reduction", "fam:rechunk"], "thorough": ["fresh-process", "untokenizable-source", "stage:after-compute", "stage:after-optimize"]}
